@@ -345,8 +345,52 @@ Fixpoint reserve_bound (acct asset : string) (bound : Z) (cur : balances) (ps : 
       (bound <=? bget cur2 acct asset) && reserve_bound acct asset bound cur2 ps'
   end.
 
+(* the visible balance sheet when the last statement starts, with the effect of every save
+   computed by the specification (Spec/Ledger.save_visible), not by the model of runSaveStatement *)
+Fixpoint spec_prefix (vs : env) (ss : list stmt) (cur : balances) : option balances :=
+  match ss with
+  | [] => Some cur
+  | s :: ss' =>
+      match s with
+      | StSave _ sv a =>
+          match ok_opt (eval_sent_amt vs sv), ok_opt (eval_as vs a expect_account) with
+          | Some (asset, n), Some acct =>
+              if match n with Some k => k <? 0 | None => false end then None
+              else spec_prefix vs ss' (bset (acct, asset) (save_visible (bget cur acct asset) n) cur)
+          | _, _ => None
+          end
+      | StSend _ _ _ _ =>
+          match run_stmt vs s (mkstate cur [] []) with
+          | Ok (ps, _) => spec_prefix vs ss' (apply_postings cur ps)
+          | _ => None
+          end
+      | StFnCall _ => spec_prefix vs ss' cur
+      | _ => None
+      end
+  end.
+
+(* the last send judged against the specification's visible balances: it must succeed exactly
+   when the visible funds suffice, and debit what the greedy draw says *)
+Definition last_send_on_spec_visible (c : icase) : bool * bool :=     (* (holds, applicable) *)
+  match split_last (p_stmts (ic_prog c)), model_env c, eval_last_send c with
+  | Some (pre, StSend _ _ _ _), Some vs, Some es =>
+      match spec_prefix vs pre (ic_bal c), es_src es, es_dst es with
+      | Some vis, Some src, Some d =>
+          let es' := mk_esend (es_asset es) (es_amount es) (es_src es) (es_dst es)
+                       (fun a => bget vis a (es_asset es)) (es_own es) in
+          match es_amount es, d with
+          | Some n, _ => (prop_C03 es' src d n (ic_obs c), true)
+          | None, EDAccount _ => (prop_C04 es' src (ic_obs c), true)
+          | None, _ => (true, false)
+          end
+      | _, _, _ => (true, false)
+      end
+  | _, _, _ => (true, false)
+  end.
+
 Definition judge_C08 (c : icase) : bool * bool * bool :=
   let agree := agree_postings c in
+  let '(vis_ok, vis_app) := last_send_on_spec_visible c in
   match ic_obs c, model_env c with
   | ObsOk ps _ _ _, Some vs =>
       match leading_saves vs (p_stmts (ic_prog c)), all_grants vs (p_stmts (ic_prog c)) with
@@ -359,11 +403,11 @@ Definition judge_C08 (c : icase) : bool * bool * bool :=
                         let v := visible_after b acct asset saves in
                         reserve_bound acct asset (b - Z.max 0 v) (ic_bal c) ps) saves in
           let only_saves := forallb (fun s => match s with StSave _ _ _ => true | _ => false end) (p_stmts (ic_prog c)) in
-          (agree, ok && (if only_saves then Nat.eqb (List.length ps) 0 else true),
-           negb (Nat.eqb (List.length saves) 0))
-      | _, _ => (agree, true, false)
+          (agree, vis_ok && ok && (if only_saves then Nat.eqb (List.length ps) 0 else true),
+           vis_app || negb (Nat.eqb (List.length saves) 0))
+      | _, _ => (agree, vis_ok, vis_app)
       end
-  | _, _ => (agree, true, false)
+  | _, _ => (agree, vis_ok, vis_app)
   end.
 
 (* C12 *)
@@ -380,3 +424,118 @@ Definition judge_C12 (c : icase) : bool * bool * bool :=
                | None, _ => true
                end in
   (agree, no_panic && typed && err_result_empty (ic_obs c) && fault, true).
+
+(* ======================= C09: sequential composition ======================= *)
+Record splitcase := mk_splitcase {
+  sc_prog : program;
+  sc_k : nat;                       (* split point: the first k statements / the rest *)
+  sc_vars : list (string * string);
+  sc_bal : balances;
+  sc_meta : metadata;
+  sc_flag : bool;
+  sc_whole : observed;
+  sc_first : observed;
+  sc_bal2 : option balances;        (* visible balances after the first part, as computed by the harness *)
+  sc_second : option observed }.
+
+Definition obs_same_result (a b : observed) : bool :=
+  match a, b with
+  | ObsOk p1 t1 m1 _, ObsOk p2 t2 m2 _ => list_eqb posting_eqb p1 p2 && amap_eqb value_eqb t1 t2 && metadata_eqb m1 m2
+  | ObsErr n1 _ _, ObsErr n2 _ _ => String.eqb n1 n2
+  | ObsPanic _, ObsPanic _ => true
+  | _, _ => false
+  end.
+
+(* right-biased merge of association maps *)
+Definition amap_merge {A} (m1 m2 : list (string * A)) : list (string * A) :=
+  fold_left (fun acc kv => aset (fst kv) (snd kv) acc) m2 m1.
+
+Definition metadata_merge (m1 m2 : metadata) : metadata :=
+  fold_left (fun acc kv =>
+    let old := match alookup (fst kv) acc with Some x => x | None => [] end in
+    aset (fst kv) (amap_merge old (snd kv)) acc) m2 m1.
+
+Definition prop_C09 (c : splitcase) : bool :=
+  match sc_whole c, sc_first c, sc_second c with
+  | ObsOk pw tw mw _, ObsOk p1 t1 m1 _, Some (ObsOk p2 t2 m2 _) =>
+      list_eqb posting_eqb pw (p1 ++ p2) && amap_eqb value_eqb tw (amap_merge t1 t2) && metadata_eqb mw (metadata_merge m1 m2)
+  (* a failing script: one of the two parts fails too. Which error is reported may differ: the
+     whole script evaluates the expressions of ALL statements (to collect balance queries) before
+     running the first one, so an error of a later statement can win over an earlier MissingFunds *)
+  | ObsErr _ _ _, ObsErr _ _ _, _ => true
+  | ObsErr _ _ _, ObsOk _ _ _ _, Some (ObsErr _ _ _) => true
+  | _, _, _ => false
+  end.
+
+Definition judge_C09 (c : splitcase) : bool * bool * bool :=
+  let sb := mk_store SKExact (sc_bal c) (sc_meta c) None in
+  let whole := run_program (sc_prog c) (sc_vars c) sb (sc_flag c) in
+  let agree_whole := match whole, sc_whole c with
+                     | Ok x, ObsOk ps txm am _ => list_eqb posting_eqb (x_postings x) ps && amap_eqb value_eqb (x_txmeta x) txm && metadata_eqb (x_accmeta x) am
+                     | Err e, ObsErr n _ _ => String.eqb (err_name e) n
+                     | Panic _, ObsPanic _ => true
+                     | _, _ => false end in
+  (* the harness's own computation of the visible balances after the first part agrees with the model *)
+  let agree_bal :=
+    match sc_bal2 c with
+    | None => true
+    | Some b2 =>
+        match prepare (sc_prog c) (sc_vars c) sb (sc_flag c) with
+        | Ok (vs, rs) =>
+            match run_stmts vs (firstn (sc_k c) (p_stmts (sc_prog c))) (mkstate (rs_cache rs) [] []) with
+            | Ok (_, st) =>
+                (* only balances that were fetched are tracked exactly (an unbounded source is never asked for) *)
+                forallb (fun e : cell * Z => (bget (st_cache st) (fst (fst e)) (snd (fst e)) =? snd e)
+                                             || negb (bmem (rs_cache rs) (fst (fst e)) (snd (fst e)))) b2
+            | _ => false
+            end
+        | _ => true      (* the whole script fails before its first statement: nothing to compare *)
+        end
+    end in
+  (agree_whole && agree_bal, prop_C09 c,
+   match sc_whole c with ObsOk ps _ _ _ => negb (Nat.eqb (List.length ps) 0) | _ => false end).
+
+(* ======================= C10: store independence ======================= *)
+Record c10case := mk_c10case {
+  tc_prog : program;
+  tc_vars : list (string * string);
+  tc_bal : balances;
+  tc_meta : metadata;
+  tc_flag : bool;
+  tc_obs : list (store_kind * observed) }.
+
+Definition log_has_world (o : observed) : bool :=
+  match o with
+  | ObsOk _ _ _ log => existsb (fun call => match call with CallBalances q => existsb (fun e : string * list string => String.eqb (fst e) WORLD) q | _ => false end) log
+  | _ => false
+  end.
+
+Definition judge_C10 (c : c10case) : bool * bool * bool :=
+  let agree := forallb (fun ko : store_kind * observed =>
+                 agree_full (mk_icase (tc_prog c) (tc_vars c) (tc_bal c) (tc_meta c) (fst ko) None (tc_flag c) (snd ko))) (tc_obs c) in
+  let prop := match tc_obs c with
+              | [] => true
+              | (_, o0) :: rest => forallb (fun ko : store_kind * observed => obs_same_result o0 (snd ko)) rest
+              end && forallb (fun ko : store_kind * observed => negb (log_has_world (snd ko))) (tc_obs c) in
+  let nontrivial := existsb (fun ko : store_kind * observed => match snd ko with ObsOk _ _ _ (_ :: _) => true | _ => false end) (tc_obs c) in
+  (agree, prop, nontrivial).
+
+(* ======================= C11: purity, determinism, re-entrancy ======================= *)
+Record c11case := mk_c11case {
+  ec_case : icase;                   (* first run, against the bundled static store *)
+  ec_second : observed;              (* second run with the very same inputs *)
+  ec_inputs_unchanged : bool;        (* deep comparison of variables, balances, metadata before / after *)
+  ec_flag_on : observed;
+  ec_flag_off : observed;
+  ec_uses_overdraft_fn : bool;
+  ec_concurrent_same : bool;         (* every concurrent run on one shared parse result gave the sequential result *)
+  ec_race_free : bool }.             (* race detector silent (true when the build has no race detector) *)
+
+Definition judge_C11 (c : c11case) : bool * bool * bool :=
+  let agree := agree_full (ec_case c) in
+  let same := obs_same_result (ic_obs (ec_case c)) (ec_second c) in
+  let gating := if ec_uses_overdraft_fn c
+                then obs_same_result (ec_flag_on c) (ec_flag_off c) || obs_is_err (ec_flag_off c) "ExperimentalFeature"
+                else obs_same_result (ec_flag_on c) (ec_flag_off c) in
+  (agree, same && ec_inputs_unchanged c && gating && ec_concurrent_same c && ec_race_free c,
+   match ic_obs (ec_case c) with ObsOk (_ :: _) _ _ _ => true | _ => false end).
